@@ -198,6 +198,30 @@ def real(case):
         return None, e
 
 
+def reference_verdict(case):
+    """the verdict according to the reference interpreter written from the
+    documents (ref/vm.py, the C06 model): independent of the VM under test
+    also for what happens INSIDE a script. -> True / False / None (the
+    documents do not decide)"""
+    from ..ref import vm
+    counter = [0]
+
+    def entropy(n):
+        out = env.Entropy.peek_stream(b'tsverif-entropy', counter[0], n)
+        counter[0] += 1
+        return out
+    cfg = vm.Config(case['max_items'], case['max_item_size'], case['limit'],
+                    {}, {}, env.NOW0, entropy, {})
+    import copy
+    cache = {'timestamp': env.NOW0, **copy.deepcopy(dict(case['cache']))}
+    try:
+        return vm.run_auth(case['scripts'], cache, cfg)
+    except vm.Unspecified:
+        return None
+    except RecursionError:
+        return None
+
+
 def oracle(case):
     """the contract of the docstring, composed from Tape / Stack / run_tape"""
     functions, _, _, classes, _ = env.mods()
@@ -455,6 +479,17 @@ def judge_traced(ctx, case, verdict, exc):
                               f'True but script #{k} stopped at {tp.pointer}'
                               f'/{len(tp.data)}', case)
                 return
+    # second, fully independent opinion: the reference interpreter
+    ref = reference_verdict(case)
+    ctx.tab('reference_vm', 'unspecified' if ref is None else
+            ('agrees' if ref == verdict else 'DIFFERS'))
+    if ref is not None and ref != verdict:
+        ctx.violation('auth-differs-from-reference-vm', 'verdict differs from '
+                      'the reference interpreter written from the documents '
+                      '(an instruction inside a script does not behave as '
+                      'documented, and it changes the authorization)', case,
+                      ref, verdict)
+        return
     if verdict or (n >= 2 and sum(1 for x in ev_real if x) >= 2):
         ctx.mark_nontrivial(dg(case))
     if verdict:
